@@ -148,6 +148,145 @@ class Ref:
         return b"".join(out)
 
 
+
+# ----------------------------------------------------------------------------- patch_pypdf_fallback_aes: AST -> Coq
+PATCH_MODS = {"pypdf._crypt_providers": "Providers", "pypdf._crypt_providers._fallback": "Fb", "pypdf._encryption": "Enc"}
+
+
+def translate_patch(m):
+    """Fail-closed translation of patch_pypdf_fallback_aes into (guard string, [(ns, attr, value)]).
+    Accepted statements: docstring; `import <pypdf module> as <alias>`; the guard
+    `if <providers>.crypt_provider[0] != "<str>": return False` (before any assignment); local function
+    definitions; `<alias>.<name> = <rhs>` / `<fb>.CryptAES.<name> = <rhs>` with rhs a module-level function, a
+    local function or `<fb>.CryptAES`; a final `return True`.  Anything else raises."""
+    import ast
+    from common import coq_str
+    tree = ast.parse(open(m.__file__, encoding="utf-8").read())
+    module_fns = {n.name for n in tree.body if isinstance(n, ast.FunctionDef)}
+    fns = [n for n in tree.body if isinstance(n, ast.FunctionDef) and n.name == "patch_pypdf_fallback_aes"]
+    if len(fns) != 1:
+        raise ValueError("patch_pypdf_fallback_aes not found exactly once")
+    fn = fns[0]
+    if fn.args.args or fn.args.kwonlyargs or fn.args.vararg or fn.args.kwarg or fn.decorator_list:
+        raise ValueError("unexpected signature/decorators")
+    alias, local_fns, guard, body = {}, set(), None, []
+    stmts = list(fn.body)
+    if stmts and isinstance(stmts[0], ast.Expr) and isinstance(stmts[0].value, ast.Constant) and isinstance(stmts[0].value.value, str):
+        stmts = stmts[1:]
+    if not (stmts and isinstance(stmts[-1], ast.Return) and isinstance(stmts[-1].value, ast.Constant) and stmts[-1].value.value is True):
+        raise ValueError("last statement is not `return True`")
+    for st in stmts[:-1]:
+        if isinstance(st, ast.Import):
+            for a in st.names:
+                if a.name not in PATCH_MODS or not a.asname:
+                    raise ValueError(f"unexpected import {a.name}")
+                alias[a.asname] = PATCH_MODS[a.name]
+        elif isinstance(st, ast.If):
+            tst = st.test
+            ok = (guard is None and not body and not st.orelse and isinstance(tst, ast.Compare) and len(tst.ops) == 1
+                  and isinstance(tst.ops[0], ast.NotEq) and isinstance(tst.left, ast.Subscript)
+                  and isinstance(tst.left.value, ast.Attribute) and tst.left.value.attr == "crypt_provider"
+                  and isinstance(tst.left.value.value, ast.Name) and alias.get(tst.left.value.value.id) == "Providers"
+                  and isinstance(tst.left.slice, ast.Constant) and tst.left.slice.value == 0
+                  and isinstance(tst.comparators[0], ast.Constant) and isinstance(tst.comparators[0].value, str)
+                  and len(st.body) == 1 and isinstance(st.body[0], ast.Return)
+                  and isinstance(st.body[0].value, ast.Constant) and st.body[0].value.value is False)
+            if not ok:
+                raise ValueError(f"unexpected `if` at line {st.lineno}")
+            guard = tst.comparators[0].value
+        elif isinstance(st, ast.FunctionDef):
+            local_fns.add(st.name)
+        elif isinstance(st, ast.Assign):
+            if guard is None or len(st.targets) != 1 or not isinstance(st.targets[0], ast.Attribute):
+                raise ValueError(f"unexpected assignment at line {st.lineno}")
+            tg = st.targets[0]
+            if isinstance(tg.value, ast.Name) and tg.value.id in alias:
+                key = (alias[tg.value.id], tg.attr)
+            elif (isinstance(tg.value, ast.Attribute) and tg.value.attr == "CryptAES" and isinstance(tg.value.value, ast.Name)
+                  and alias.get(tg.value.value.id) == "Fb"):
+                key = ("FbCryptAES", tg.attr)
+            else:
+                raise ValueError(f"unexpected assignment target at line {st.lineno}")
+            v = st.value
+            if isinstance(v, ast.Name) and v.id in local_fns:
+                val = f"(Wrapper {coq_str(v.id)})"
+            elif isinstance(v, ast.Name) and v.id in module_fns:
+                val = f"(OursFn {coq_str(v.id)})"
+            elif isinstance(v, ast.Attribute) and v.attr == "CryptAES" and isinstance(v.value, ast.Name) and alias.get(v.value.id) == "Fb":
+                val = "FbClass"
+            else:
+                raise ValueError(f"unexpected right-hand side at line {st.lineno}")
+            body.append((key, val))
+        else:
+            raise ValueError(f"unexpected statement {type(st).__name__} at line {st.lineno}")
+    if guard is None:
+        raise ValueError("no provider guard")
+    return guard, body
+
+
+def gen_patch(ctx, m):
+    from common import coq_str
+    try:
+        guard, body = translate_patch(m)
+        err = ""
+    except Exception as e:  # noqa
+        guard, body, err = "", [], f"{type(e).__name__}: {e}"
+    ctx.obligation("ast:patch_pypdf_fallback_aes has the modelled shape (guard + attribute assignments only)", not err, err)
+    txt = "(* GENERATED on every check run from the AST of patch_pypdf_fallback_aes — do not edit. *)\n"
+    txt += "From S2T Require Import Lib.PyStr C20.Patch.\n\n"
+    txt += f"Definition patch_guard : str := {coq_str(guard) if guard else '[]'}.\n"
+    txt += "Definition patch_body : list assign := [\n" + ";\n".join(
+        f"  (({ns}, {coq_str(a)}), {v})" for (ns, a), v in body) + "\n].\n"
+    ctx.gen_write("Gen/C20Patch.v", txt)
+    return guard, body, err
+
+
+SNAP_SCRIPT = r"""
+import importlib, json, sys
+scenario = sys.argv[1]
+m = importlib.import_module(%r)
+import pypdf._crypt_providers as providers, pypdf._crypt_providers._fallback as fb, pypdf._encryption as enc
+FN = ["aes_ecb_encrypt", "aes_ecb_decrypt", "aes_cbc_encrypt", "aes_cbc_decrypt"]
+keep, ids = [], {}
+def cls(o):
+    for n in FN:
+        if o is getattr(m, n):
+            return ["OursFn", n]
+    if o is fb.CryptAES:
+        return ["FbClass"]
+    qn = getattr(o, "__qualname__", "")
+    if getattr(o, "__module__", None) == m.__name__ and qn.startswith("patch_pypdf_fallback_aes.<locals>."):
+        return ["Wrapper", qn.rsplit(".", 1)[1]]
+    keep.append(o)
+    return ["Other", ids.setdefault(id(o), len(ids))]
+def snap():
+    out = []
+    for nsname, d in (("Providers", vars(providers)), ("Fb", vars(fb)), ("Enc", vars(enc)), ("FbCryptAES", vars(fb.CryptAES))):
+        for k, v in list(d.items()):
+            if k.startswith("__") and k.endswith("__") and k != "__init__":
+                continue
+            out.append([nsname, k, cls(v)])
+    return out
+if scenario == "other-provider":
+    providers.crypt_provider = ("some_other_provider", "1.0")
+if scenario == "hostile-prestate":
+    enc.aes_ecb_encrypt = lambda *a: b"stale"
+    providers.aes_cbc_decrypt = enc.aes_cbc_encrypt
+    fb.CryptAES.encrypt = lambda self, d: d
+    providers.CryptAES = type("Stale", (), {})
+    if hasattr(enc, "aes_cbc_decrypt"):
+        del enc.aes_cbc_decrypt
+runs = []
+before = snap()
+for _ in range(3):
+    ret = m.patch_pypdf_fallback_aes()
+    after = snap()
+    runs.append({"before": before, "ret": bool(ret), "after": after})
+    before = after
+print(json.dumps({"provider": providers.crypt_provider[0], "runs": runs}))
+"""
+
+
 H = bytes.fromhex
 KAT_PT = H("6bc1bee22e409f96e93d7e117393172aae2d8a571e03ac9c9eb76fac45af8e51"
            "30c81c46a35ce411e5fbc1191a0a52eff69f2445df4f9b17ad2b417be66c3710")
@@ -245,7 +384,15 @@ def run(ctx):
     ]
     ctx.assumptions += ["list elements are bytes (< 256) — guaranteed by Python's bytes type",
                         "no interleaving of threads inside _get_round_keys is modelled (calls from a worker thread, sequentially, are tested by env_sweep)"]
+    import time as _t
+    _t0 = [_t.time()]
+    phases = ctx.extra.setdefault("phase_s", {})
+
+    def phase(name):
+        phases[name] = round(_t.time() - _t0[0], 1)
+        _t0[0] = _t.time()
     m = gen_tables(ctx)
+    p_guard, p_body, p_err = gen_patch(ctx, m)
     rng = ctx.rng
     R = Run(ctx, m)
     ref = R.ref
@@ -255,17 +402,21 @@ def run(ctx):
         "fips197_B_cipher", "fips197_C_128_cipher", "fips197_C_192_cipher", "fips197_C_256_cipher",
         "fips197_A_keyexp_128", "fips197_A_keyexp_192", "fips197_A_keyexp_256",
         "sp800_38a_F1_ecb_128_encrypt", "sp800_38a_F2_cbc_256_decrypt"])
-    ctx.prove("C20/Props.v", ["C20/Top.vo"], expected=[
+    ctx.prove("C20/Props.v", ["C20/Top.vo", "C20/PatchProofs.vo"], expected=[
         "C20_sbox_tables_ok", "C20_mul_tables_ok", "C20_rcon_ok", "C20_gf_mul_ok", "C20_built_tables",
         "C20_expand_key_eq_spec", "C20_block_eq_fips", "C20_decrypt_encrypt", "C20_ecb_eq", "C20_cbc_eq",
         "C20_ecb_roundtrip", "C20_cbc_roundtrip", "C20_unpad_pad", "C20_pad_len", "C20_stream_roundtrip",
-        "C20_rejects", "C20_round_key_cache_coherent"])
+        "C20_rejects", "C20_round_key_cache_coherent",
+        "C20_patch_installs", "C20_patch_frame", "C20_patch_idempotent", "C20_patch_not_applicable"])
     ok_inst, _ = ctx.prove("C20/Inst.v", ["Gen/C20Tables.vo", "C20/Corr.vo"], expected=["C20_tables_ok", "C20_cache_max"])
+    ctx.prove("C20/InstPatch.v", ["Gen/C20Patch.vo", "C20/CorrPatch.vo"],
+              expected=["C20_patch_body_ok", "C20_patch_guard_is_fallback_provider"])
     if not ok_inst:
         okh, out = ctx.coq_eval("firstbad", "From S2T Require Import C20.Spec C20.Model C20.Tables Gen.C20Tables.\n"
                                 "Eval vm_compute in (first_bad T).\n")
         ctx.extra["first_bad_tables(index into SBOX,INV_SBOX,MUL2,3,9,11,13,14,RCON)"] = out[-300:]
 
+    phase("coq-proofs")
     # ---- tables on the implementation, directly (property oracle for the G part: names the bad entry)
     want = {"_SBOX": ref.sbox, "_INV_SBOX": ref.inv_sbox,
             **{f"_MUL{k}": [ref.gmul(v, k) for v in range(256)] for k in (2, 3, 9, 11, 13, 14)}}
@@ -565,18 +716,80 @@ def run(ctx):
     common.env_sweep(ctx, "aes-public-api", env_fn, env_cases,
                      describe=lambda c: f"{c[0]}(key {c[1].hex()}, iv {c[2].hex()}, {len(c[3])} bytes of data)")
 
-    # ---- cache histories
+    # ---- key families that coincide under a lossy canonicalisation of the key (leading / trailing zero bytes, equal
+    #      integer value, common prefix or suffix, empty and all-zero keys of every length): each key is used while another
+    #      member of its family is the most recently cached one.  Behavioural: result == reference under the key GIVEN,
+    #      ValueError exactly for the wrong lengths.
+    fam_seeds = [rkey(rng, 16), bytes(15) + b"\x01", b"\x01" + bytes(15), bytes(16), KAT[16][0]]
+    families = []
+    for K in fam_seeds:
+        K8 = K[:8]
+        families.append([K, bytes(8) + K, bytes(16) + K, K + bytes(8), K + bytes(16), K + K8, K + K, K8 + K, b"\x00" + K, K + b"\x00",
+                         bytes(3) + K, K[1:], K[:-1], bytes(17) + K])
+    families.append([b"", bytes(1), bytes(15), bytes(16), bytes(17), bytes(24), bytes(32), bytes(33)])
+    fam_data, fam_iv = rkey(rng, 32), rkey(rng, 16)
+    for fam in families:
+        pairs = [(k1, k2) for k1 in fam for k2 in fam if k1 != k2]
+        if ctx.tier == "quick" and len(pairs) > 60:
+            pairs = [pq for pq in pairs if len(pq[0]) in (16, 24, 32)]      # something must actually be cached first
+            rng.shuffle(pairs)
+            pairs = pairs[:60]
+        for k1, k2 in pairs:
+            good = len(k2) in (16, 24, 32)
+            for nm, f, args, wantv in (("aes_ecb_encrypt", m.aes_ecb_encrypt, (k2, fam_data), ref.ecb(k2, fam_data) if good else None),
+                                       ("aes_cbc_decrypt", m.aes_cbc_decrypt, (k2, fam_iv, fam_data), ref.cbc_dec(k2, fam_iv, fam_data) if good else None)):
+                R.set_history([k1])
+                ok, r = R.call(nm, f, *args)
+                if not ok:
+                    continue
+                if nm == "aes_ecb_encrypt":
+                    R.add(f"CEcb false {clb([k1])} {cb(k2)} {cb(fam_data)} {copt(r)}", ("ecb", False, [k1], k2, fam_data), good, "ecb(key-family)")
+                else:
+                    R.add(f"CCbc true {clb([k1])} {cb(k2)} {cb(fam_iv)} {cb(fam_data)} {copt(r)}", ("cbc", True, [k1], k2, fam_iv, fam_data), good, "cbc(key-family)")
+                if r != wantv:
+                    same_as_k1 = len(k1) in (16, 24, 32) and r == (ref.ecb(k1, fam_data) if nm == "aes_ecb_encrypt" else ref.cbc_dec(k1, fam_iv, fam_data))
+                    ctx.finding(f"key-confusion:{nm}:len(k1)={len(k1)},len(k2)={len(k2)}",
+                                f"{nm} with key {k2.hex() or '(empty)'} right after a call with key {k1.hex() or '(empty)'} "
+                                + ("returns the result under the EARLIER key" if same_as_k1 else "accepts a wrong-length key" if wantv is None else
+                                   "raises ValueError for a valid key" if r is None else "differs from the reference"),
+                                {"first_key": k1, "key": k2, "iv": fam_iv, "data": fam_data, "got": r, "want": wantv})
+
+    # ---- cache histories.  The structural comparison (order of the cached keys) needs the cache to be keyed by the key
+    #      bytes; with any other representation only the behavioural checks run (and the evidence says so).
+    def cache_keys():
+        try:
+            ks = list(m._ROUND_KEY_CACHE.keys())
+        except Exception:  # noqa
+            return None
+        if all(isinstance(k, (bytes, bytearray, memoryview)) for k in ks):
+            return [bytes(k) for k in ks]
+        return None
+    structural = 0
     for t in range(ctx.n(40, 400)):
         hist = history() + history()
         R.set_history(hist)
-        order = list(m._ROUND_KEY_CACHE.keys())
-        R.add(f"CCache {clb(hist)} {clb(order)}", ("cache", hist, order), len(order) > 0, "cache")
-        if len(order) > m._ROUND_KEY_CACHE_MAX or any(m._ROUND_KEY_CACHE[k] != m._expand_key(k) for k in order):
-            ctx.finding("cache-incoherent", f"round-key cache incoherent or larger than {m._ROUND_KEY_CACHE_MAX} after history",
-                        {"history": hist, "keys": order})
-        k = rng.choice(keys)
-        if m._get_round_keys(k) != m._expand_key(k):
-            ctx.finding("cache-returns-wrong-keys", "_get_round_keys(k) != _expand_key(k) after history", {"history": hist, "key": k})
+        order = cache_keys()
+        if order is not None:
+            structural += 1
+            R.add(f"CCache {clb(hist)} {clb(order)}", ("cache", hist, order), len(order) > 0, "cache")
+            try:
+                bad = len(order) > m._ROUND_KEY_CACHE_MAX or any(m._ROUND_KEY_CACHE[k] != m._expand_key(k) for k in order)
+            except Exception as e:  # noqa
+                bad = True
+            if bad:
+                ctx.finding("cache-incoherent", f"round-key cache incoherent or larger than {m._ROUND_KEY_CACHE_MAX} after history",
+                            {"history": hist, "keys": order})
+        else:
+            ctx.case(("cache", hist), True, "cache(behavioural only)")
+        for k in [rng.choice(keys)] + [h for h in hist if len(h) in (16, 24, 32)][:2]:
+            ok1, got = R.call("_get_round_keys", m._get_round_keys, k)
+            exp_rk, _ = ref.expand(k)
+            if ok1 and (got is None or [bytes(x) for x in got] != [bytes(x) for x in exp_rk]):
+                ctx.finding(f"cache-returns-wrong-keys:keylen={len(k)}", f"_get_round_keys({k.hex()}) is not the key expansion of that key after history "
+                            f"{[h.hex() for h in hist]}", {"history": hist, "key": k})
+    ctx.extra["cache_structural_comparisons"] = structural
+    if not structural:
+        ctx.extra["cache_note"] = "round-key cache not keyed by bytes: structural cache correspondence skipped, behavioural checks only"
 
     # ---- PKCS#7
     for ln in range(0, 65):
@@ -761,12 +974,77 @@ def run(ctx):
                    str(ctx.extra.get("cryptaes_wrapper", "patch_pypdf_fallback_aes() returned False")))
     m._ROUND_KEY_CACHE.clear()
 
+
+    phase("implementation+oracles")
+    # ---- patch_pypdf_fallback_aes: installation (model from the AST, snapshots from fresh interpreters)
+    import json as _json
+    import os as _os
+    import subprocess as _sp
+    import sys as _sys
+    from common import coq_str
+
+    def cval(v):
+        return {"OursFn": lambda: f"(OursFn {coq_str(v[1])})", "Wrapper": lambda: f"(Wrapper {coq_str(v[1])})",
+                "FbClass": lambda: "FbClass", "Other": lambda: f"(Other {v[1]}%N)"}[v[0]]()
+
+    def cstate(sn):
+        return "[" + "; ".join(f"(({n}, {coq_str(k)}), {cval(v)})" for n, k, v in sn) + "]"
+    patch_cases, patch_info = [], []
+    req = {(n, f): ["OursFn", f] for n in ("Fb", "Providers", "Enc") for f in ("aes_ecb_encrypt", "aes_ecb_decrypt", "aes_cbc_encrypt", "aes_cbc_decrypt")}
+    req.update({("Providers", "CryptAES"): ["FbClass"], ("Enc", "CryptAES"): ["FbClass"],
+                ("FbCryptAES", "__init__"): ["Wrapper", "_cryptaes_init"], ("FbCryptAES", "encrypt"): ["Wrapper", "_cryptaes_encrypt"],
+                ("FbCryptAES", "decrypt"): ["Wrapper", "_cryptaes_decrypt"]})
+    for scenario in ("plain", "other-provider", "hostile-prestate"):
+        pr = _sp.run([_sys.executable, "-c", SNAP_SCRIPT % AES_MOD, scenario], capture_output=True, text=True, timeout=120, env=dict(_os.environ))
+        if pr.returncode != 0:
+            ctx.finding(f"patch-raises:{scenario}", f"patch_pypdf_fallback_aes() raised in scenario {scenario}: {pr.stderr.strip().splitlines()[-1:]}",
+                        {"scenario": scenario, "stderr": pr.stderr[-2000:]})
+            continue
+        res = _json.loads(pr.stdout.strip().splitlines()[-1])
+        prov = res["provider"]
+        for i, rn in enumerate(res["runs"]):
+            b = {(n, k): v for n, k, v in rn["before"]}
+            a = {(n, k): v for n, k, v in rn["after"]}
+            ctx.case(("patch", scenario, i), True, f"patch:{scenario}")
+            patch_cases.append(f"({coq_str(prov)}, {cstate(rn['before'])}, {cbool(rn['ret'])}, {cstate(rn['after'])})")
+            patch_info.append((scenario, i, prov))
+            applies = prov == "local_crypt_fallback"
+            # property oracle on the implementation's own snapshots
+            if rn["ret"] != applies:
+                ctx.finding(f"patch-return:{scenario}", f"patch_pypdf_fallback_aes() returned {rn['ret']} on provider {prov!r}", {"scenario": scenario, "run": i})
+            if applies:
+                for kq, want in req.items():
+                    if a.get(kq) != want:
+                        ctx.finding(f"patch-not-installed:{kq[0]}.{kq[1]}", f"after patch_pypdf_fallback_aes() [{scenario}, call {i + 1}] "
+                                    f"{kq[0]}.{kq[1]} is {a.get(kq)}, expected {want}", {"scenario": scenario, "run": i, "key": kq, "got": a.get(kq)})
+            for kq in set(a) | set(b):
+                if (not applies or kq not in req) and a.get(kq) != b.get(kq):
+                    ctx.finding(f"patch-touches:{kq[0]}.{kq[1]}", f"patch_pypdf_fallback_aes() [{scenario}, provider {prov}] changed {kq[0]}.{kq[1]} "
+                                f"from {b.get(kq)} to {a.get(kq)}", {"scenario": scenario, "run": i, "key": kq})
+            if i > 0 and (a != b or rn["ret"] != res["runs"][0]["ret"]):
+                ctx.finding(f"patch-not-idempotent:{scenario}", f"call {i + 1} of patch_pypdf_fallback_aes() changed bindings again", {"scenario": scenario, "run": i})
+    ctx.prove("C20/LinkC08.v", ["C08/Pad.vo", "C20/Model.vo"], expected=["C20_pkcs7_is_C08_pkcs7"])
+    if not p_err:
+        prep = "From S2T Require Import Lib.PyStr C20.Patch C20.CorrPatch Gen.C20Patch.\n"
+        okp, failing_p, logp = coq_eval_shards(ctx, "corrpatch", prep, "(patch_case patch_guard patch_body)", patch_cases, shard=3,
+                                               ty="str * state * bool * state", timeout=600)
+        ctx.traces += len(patch_cases)
+        ctx.obligation("correspondence(patch installation): model of the AST == real call on namespace snapshots (plain, other provider, "
+                       "hostile pre-state; 3 consecutive calls each)", okp and not failing_p and len(patch_cases) >= 9,
+                       (f"{len(failing_p)} disagreements; first: {patch_info[failing_p[0]] if failing_p else ''!r} " + logp)[:1200])
+        for i in failing_p[:3]:
+            ctx.finding(f"patch-model-disagrees:{patch_info[i][0]}:call{patch_info[i][1] + 1}", "the bindings after the real patch_pypdf_fallback_aes() differ from the "
+                        "model translated from its AST", {"scenario": patch_info[i], "coq_term": patch_cases[i][:6000]})
+
+    phase("patch-installation")
     # ---- correspondence: the model on the same cases
     pre = "From Coq Require Import NArith List.\nFrom S2T Require Import C20.Spec C20.Model C20.Corr Gen.C20Tables.\nImport ListNotations.\n"
     okc, failing, log = coq_eval_shards(ctx, "corr", pre, "(corr_case T)", R.cases, shard=ctx.n(350, 500), ty="ccase", timeout=1200)
+    phase("coq-correspondence")
     okl, failing_l, logl = coq_eval_shards(ctx, "corrlong", pre, "(corr_case T)", long_cases, shard=3, ty="ccase", timeout=1200)
     ctx.obligation("correspondence(long messages: 65/66/129/130 blocks; thorough: 1..513):model==implementation",
                    okl and not failing_l, (f"{len(failing_l)} disagreements; first: {long_info[failing_l[0]][:2] if failing_l else ''!r} " + logl)[:1500])
+    phase("coq-correspondence-long")
     for i in failing_l[:3]:
         ctx.finding(f"model-disagrees:{long_info[i][0]}:blocks={long_info[i][1]}", f"implementation differs from the proved model on a "
                     f"{long_info[i][1]}-block {long_info[i][0]} case", {"case": list(long_info[i]), "coq_term": long_cases[i][:6000]})
